@@ -39,25 +39,32 @@ Section Witnesses.
   Lemma w_minute_absent : forall rs, parse_full du rs opts0 s_2colon = Raise E_ParserError /\ common_minute_absent s_2colon = false.
   Proof. intros [|]; split; vm_compute; reflexivity. Qed.
 
+  (* "2021-01-01/P1D" and "P1D/2021-01-01": the date is taken at midnight (UTC, no tz option); "12:00/13:00" and "P1D/P1D" are not intervals *)
   Lemma w_interval_endpoints : forall rs,
-    parse_full du rs opts0 s_date_dur = Raise E_TypeError /\ parse_full du rs opts0 s_dur_date = Raise E_TypeError /\
-    parse_full du rs opts0 s_time_time = Raise E_TypeError /\ parse_full du rs opts0 s_dur_dur = Raise E_AttributeError.
+    parse_full du rs opts0 s_date_dur = Ok (V_ival 1 (mkp 1 2021 1 1 0 0 0 0 (Some 0)) (mkp 1 2021 1 2 0 0 0 0 (Some 0))) /\
+    parse_full du rs opts0 s_dur_date = Ok (V_ival 1 (mkp 1 2020 12 31 0 0 0 0 (Some 0)) (mkp 1 2021 1 1 0 0 0 0 (Some 0))) /\
+    parse_full du rs opts0 s_time_time = Raise E_ParserError /\ parse_full du rs opts0 s_dur_dur = Raise E_ParserError.
   Proof. intros [|]; repeat split; vm_compute; reflexivity. Qed.
 
-  Lemma w_wrap : parse_full du true opts0 s_wrap = Ok (V_dur (0, 0, 1, 0, 0)) /\ parse_full du false opts0 s_wrap = Raise E_OverflowError
+  Lemma w_wrap : parse_full du true opts0 s_wrap = Ok (V_dur (0, 0, 1, 0, 0)) /\ parse_full du false opts0 s_wrap = Raise E_ParserError
                  /\ parse_full du true opts0 s_iv_wrap = Ok (V_ival 1 (mkp 1 2021 1 1 0 0 0 0 (Some 0)) (mkp 1 2021 1 2 0 0 0 0 (Some 0))).
   Proof. repeat split; vm_compute; reflexivity. Qed.
 
-  Lemma w_too_large : forall rs, parse_full du rs opts0 s_big = Raise E_OverflowError.
+  (* "P99999999999D": more days than a timedelta holds; the constructor's OverflowError is answered with ParserError *)
+  Lemma w_too_large : forall rs, parse_full du rs opts0 s_big = Raise E_ParserError.
   Proof. intros [|]; vm_compute; reflexivity. Qed.
 
+  (* "...-25:00" and "...+24:00" are rejected by both backends (strict=True: ParserError); "...-23:59" and "...+23:59" are the extreme offsets *)
   Lemma w_offset : forall rs,
-    parse_full du rs opts0 s_m25 = Ok (V_p (mkp 1 2021 1 1 0 0 0 0 (Some (-90000)))) /\
-    parse_full du rs opts0 s_p24 = Ok (V_p (mkp 1 2021 1 1 0 0 0 0 (Some 86400))) /\ bad_off (-90000) = true /\ bad_off 86400 = true.
+    parse_full du rs opts0 s_m25 = Raise E_ParserError /\ parse_full du rs opts0 s_p24 = Raise E_ParserError /\
+    parse_full du rs opts0 (s_dt ++ [45;50;51;58;53;57]) = Ok (V_p (mkp 1 2021 1 1 0 0 0 0 (Some (-86340)))) /\
+    parse_full du rs opts0 (s_dt ++ [43;50;51;58;53;57]) = Ok (V_p (mkp 1 2021 1 1 0 0 0 0 (Some 86340))) /\
+    bad_off (-90000) = true /\ bad_off 86400 = true /\ bad_off 86340 = false /\ bad_off (-86340) = false.
   Proof. intros [|]; repeat split; vm_compute; reflexivity. Qed.
 
+  (* an interval whose computed or UTC-shifted endpoint leaves years 1..9999: ParserError *)
   Lemma w_interval_overflow : forall rs,
-    parse_full du rs opts0 s_iv_over = Raise E_OverflowError /\ parse_full du rs opts0 s_iv_under = Raise E_OverflowError.
+    parse_full du rs opts0 s_iv_over = Raise E_ParserError /\ parse_full du rs opts0 s_iv_under = Raise E_ParserError.
   Proof. intros [|]; split; vm_compute; reflexivity. Qed.
 
   Lemma w_backends_differ :
@@ -66,8 +73,14 @@ Section Witnesses.
   Proof. split; vm_compute; reflexivity. Qed.
 End Witnesses.
 
-(* an oracle that raises OverflowError (as dateutil does on 20 digits) escapes through parse(strict=False); strict=True is unaffected *)
+(* an oracle that raises OverflowError (as dateutil does on 20 digits): parse(strict=False) answers ParserError; strict=True never asks it *)
 Definition du_overflow : list Z -> bool -> bool -> result pval := fun _ _ _ => Raise E_OverflowError.
-Lemma w_dateutil : forall rs, parse_full du_overflow rs opts_lax s_digits20 = Raise E_OverflowError /\
+Lemma w_dateutil : forall rs, parse_full du_overflow rs opts_lax s_digits20 = Raise E_ParserError /\
+                              reaches_oracle rs opts_lax s_digits20 = true /\
                               parse_full du_overflow rs opts0 s_digits20 = Raise E_ParserError.
-Proof. intros [|]; split; vm_compute; reflexivity. Qed.
+Proof. intros [|]; repeat split; vm_compute; reflexivity. Qed.
+
+(* a dateutil that hands over a datetime whose tzoffset is 24 h: parse(strict=False) answers ParserError (dt.utcoffset() inside the try) *)
+Definition du_off24 : list Z -> bool -> bool -> result pval := fun _ _ _ => Ok (mkp 1 2021 1 1 0 0 0 0 (Some 86400)).
+Lemma w_dateutil_offset : forall rs, parse_full du_off24 rs opts_lax s_digits20 = Raise E_ParserError.
+Proof. intros [|]; vm_compute; reflexivity. Qed.
